@@ -127,7 +127,20 @@ def cases(ctx):
         for tail in ("", "} else {\n.db 0xEE\n"):
             out.append({"kind": "if-taken-block-fails", "rom": "low", "spec": {"t": "reject"},
                         "src": f"*={org:#08x}\n.db 0x10\n.if 1 {{\n{bad}{tail}}}\nzz_later = 3\n.db 0x33\n"})
-    return core.mark_must_assemble(out, {'for', 'if-late-name', 'if-empty', 'if'})
+    # conditions over an outer constant two or more scopes below its definition, with scopes in between that declare nothing
+    for wname, w in (("for-in-for", ".for zz_a := 0, 2 {\n.for zz_b := 0, 2 {\n%s}\n}\n"), ("for-in-macro0", ".macro zz_m0() {\n.for zz_b := 0, 2 {\n%s}\n}\nzz_m0()\n"),
+                     ("for-in-block", "{\n.for zz_b := 0, 2 {\n%s}\n}\n"), ("block-in-block", "{\n{\n%s}\n}\n")):
+        reps = {"for-in-for": 4, "for-in-macro0": 2, "for-in-block": 2, "block-in-block": 1}[wname]
+        for val, taken in ((1, True), (0, False), (-1, True)):
+            body = ".if zz_flag {\n.db 0xA0\n} else {\n.db 0xB0\n}\n"
+            out.append({"kind": f"if-outer-constant:{wname}", "rom": "low", "spec": {"t": "twin", "labels": True},
+                        "src": f"*={org:#08x}\nzz_flag := {val}\n" + (w % body),
+                        "twin_src": f"*={org:#08x}\n.db " + ", ".join(["0xA0" if taken else "0xB0"] * reps) + "\n"})
+    # a loop body whose only declarations stand in the else block of an .if: still one scope per iteration
+    out.append({"kind": "for-else-declares", "rom": "low", "spec": {"t": "twin", "labels": False},
+                "src": f"*={org:#08x}\n.for zz_i := 0, 3 {{\n.if 0 {{\nnop\n}} else {{\nzz_e:\n.dw zz_e\nzz_off = zz_i * 2\n.db zz_off\n}}\n}}\n",
+                "twin_src": f"*={org:#08x}\n" + "".join(f"{{\nzz_e{k}:\n.dw zz_e{k}\n.db {k * 2}\n}}\n" for k in range(3))})
+    return core.mark_must_assemble(out, {'if-outer-constant', 'for-else-declares', 'for', 'if-late-name', 'if-empty', 'if'})
 
 
 def instantiate(gen_q):
